@@ -1,21 +1,195 @@
-(* C45 — proofs. Part 1: the list semantics [sem_op] is the familiar list function of each operator. *)
+(* C45 — the statements exported to Properties/C45.v. *)
 From Coq Require Import ZArith List Bool Lia.
-From GV Require Import C45.Model.
+From GV Require Import C45.Model C45.Trace C45.Sem C45.Chain C45.StageFlow C45.StageFused C45.StageBatch C45.Main C45.Spec.
 Import ListNotations.
 Open Scope Z_scope.
 
-Lemma elementwise_total f xs :
-  (forall x, In x xs -> exists o, f x = EOut o) ->
-  elementwise f false xs = (flat_map (fun x => match f x with EOut o => o | EErr _ => [] end) xs, None).
+(* ---------- the sink of every covered pipeline receives the list semantics ---------- *)
+Definition terminals (t : list dmsg) : nat := length (filter (fun m => negb (is_elem m)) t).
+
+Lemma terminals_delems l : terminals (delems l) = O.
+Proof. induction l; simpl; auto. Qed.
+Lemma terminals_app a b : terminals (a ++ b) = (terminals a + terminals b)%nat.
+Proof. unfold terminals. rewrite filter_app, app_length. reflexivity. Qed.
+
+Lemma sink_view k S : SinkInv k -> approx (n_cin k) S ->
+  prefix (k_items (n_st k)) (fst S) /\
+  (terminals (n_cin k) <= 1)%nat /\
+  (n_alive k = true -> terminals (n_cin k) = O /\ k_completions (n_st k) = O) /\
+  (n_alive k = false ->
+     terminals (n_cin k) = 1%nat /\ k_completions (n_st k) = 1%nat /\
+     (k_err (n_st k) = None -> k_items (n_st k) = fst S /\ snd S = []) /\
+     (forall e, k_err (n_st k) = Some e -> In e (snd S))).
 Proof.
-  induction xs as [|x r IH]; intros H; simpl; [reflexivity|].
-  destruct (H x (or_introl eq_refl)) as [o Ho]. rewrite Ho.
-  rewrite IH by (intros y Hy; apply H; right; exact Hy). reflexivity.
+  intros [It [A D]] [P [C E]]. split; [rewrite It; exact P|].
+  destruct (n_alive k) eqn:Ha.
+  - destruct (A eq_refl) as [Tn [Cn En]]. rewrite (term_none_delems _ Tn), terminals_delems.
+    split; [lia|]. split; [auto|discriminate].
+  - destruct (D eq_refl) as [t [Ec [Ht [Cn En]]]].
+    assert (T1 : terminals (n_cin k) = 1%nat).
+    { rewrite Ec, terminals_app, terminals_delems. unfold terminals. simpl. rewrite Ht. reflexivity. }
+    split; [lia|]. split; [discriminate|]. intros _. split; [exact T1|]. split; [exact Cn|].
+    assert (Tt : term_of (n_cin k) = Some t /\ elems_of (n_cin k) = k_items (n_st k)).
+    { rewrite Ec. destruct (term_elems_app_none (delems (k_items (n_st k))) [] [t] (term_of_delems _)) as [E1 T1'].
+      simpl in E1, T1'. rewrite E1, T1', elems_of_delems. destruct t; simpl in *; try discriminate; rewrite app_nil_r; auto. }
+    destruct Tt as [Tt Et]. rewrite En. split.
+    + intros Hn. destruct t as [v| |e]; simpl in *; try discriminate. destruct (C Tt) as [C1 C2]. rewrite <- Et. auto.
+    + intros e He. destruct t as [v| |e']; simpl in *; try discriminate. inversion He; subst. apply E. exact Tt.
 Qed.
 
-Lemma sem_map a b (zs : list Z) :
-  sem_op (OMap a b) (map VZ zs) = (map (fun z => VZ (a * z + b)) zs, None).
+Theorem pipeline_sound (c : cfg) (input : list val) (p : list op) (fuse : bool) (s : system) :
+  Forall kok (plan fuse p) -> reach c input (plan fuse p) s ->
+  let S := sem p input in
+  let k := y_sink s in
+  prefix (k_items (n_st k)) (fst S) /\
+  (terminals (n_cin k) <= 1)%nat /\
+  (n_alive k = true -> terminals (n_cin k) = O /\ k_completions (n_st k) = O) /\
+  (n_alive k = false ->
+     terminals (n_cin k) = 1%nat /\ k_completions (n_st k) = 1%nat /\
+     (k_err (n_st k) = None -> k_items (n_st k) = fst S /\ snd S = []) /\
+     (forall e, k_err (n_st k) = Some e -> In e (snd S))).
 Proof.
-  unfold sem_op. induction zs as [|z r IH]; simpl; [reflexivity|].
-  simpl in IH. rewrite IH. reflexivity.
+  intros F R. destruct (chain_sound c input _ s F R) as [Hk Ap]. simpl.
+  apply sink_view; [exact Hk|].
+  eapply approx_swk; [exact Ap|]. rewrite <- (plan_ops fuse p) at 2. apply plan_sem_sem. exact F.
+Qed.
+
+(* the same for any way of cutting the operators into stage actors *)
+Theorem materialisation_sound (c : cfg) (input : list val) (ks : list kind) (s : system) :
+  Forall kok ks -> reach c input ks s ->
+  SinkInv (y_sink s) /\ approx (n_cin (y_sink s)) (sem (concat (map kind_ops ks)) input).
+Proof.
+  intros F R. destruct (chain_sound c input _ s F R) as [Hk Ap]. split; [exact Hk|].
+  eapply approx_swk; [exact Ap|]. apply plan_sem_sem. exact F.
+Qed.
+
+(* only one stage can fail => the terminal error is exactly that stage's error *)
+Corollary single_error (c : cfg) (input : list val) (p : list op) (fuse : bool) (s : system) e0 :
+  Forall kok (plan fuse p) -> reach c input (plan fuse p) s ->
+  snd (sem p input) = [e0] -> n_alive (y_sink s) = false ->
+  k_err (n_st (y_sink s)) = Some e0.
+Proof.
+  intros F R He Hd. destruct (pipeline_sound c input p fuse s F R) as [_ [_ [_ D]]].
+  destruct (D Hd) as [_ [_ [Hn Hs]]]. destruct (k_err (n_st (y_sink s))) as [e|].
+  - specialize (Hs e eq_refl). rewrite He in Hs. destruct Hs as [<-|[]]. reflexivity.
+  - destruct (Hn eq_refl) as [_ X]. rewrite He in X. discriminate.
+Qed.
+
+(* ---------- sem_op is the familiar list function ---------- *)
+Lemma sem_map a b (zs : list Z) :
+  sem_op (OMap a b) (vz zs) = (vz (map (fun z => a * z + b) zs), None).
+Proof.
+  unfold sem_op, vz. induction zs as [|z r IH]; simpl; [reflexivity|]. simpl in IH. rewrite IH. reflexivity.
+Qed.
+
+Lemma sem_filter m r (zs : list Z) :
+  sem_op (OFilter m r) (vz zs) = (vz (filter (fun z => negb (z mod m =? r)) zs), None).
+Proof.
+  unfold sem_op, vz. induction zs as [|z t IH]; simpl; [reflexivity|]. simpl in IH. rewrite IH.
+  destruct (z mod m =? r); reflexivity.
+Qed.
+
+Lemma sem_flatmap k (zs : list Z) :
+  sem_op (OFlatMap k) (vz zs) = (flat_map (flat_of k) zs, None).
+Proof.
+  unfold sem_op, vz. induction zs as [|z t IH]; simpl; [reflexivity|]. simpl in IH. rewrite IH. reflexivity.
+Qed.
+
+Lemma sem_buffer n (xs : list val) : sem_op (OBuffer n) xs = (xs, None).
+Proof.
+  unfold sem_op. induction xs as [|x t IH]; simpl; [reflexivity|]. simpl in IH. rewrite IH. reflexivity.
+Qed.
+
+Fixpoint sums_from (acc : Z) (zs : list Z) : list Z :=
+  match zs with [] => [] | z :: r => (acc + z) :: sums_from (acc + z) r end.
+Lemma sem_scan z0 (zs : list Z) : sem_op (OScan z0) (vz zs) = (vz (sums_from z0 zs), None).
+Proof.
+  unfold sem_op, vz. revert z0. induction zs as [|z t IH]; intros z0; simpl; [reflexivity|].
+  rewrite IH. reflexivity.
+Qed.
+
+(* Batch n then Flatten is the identity; every batch but the last has exactly n elements *)
+Fixpoint all_vl (xs : list val) : option (list (list Z)) :=
+  match xs with
+  | [] => Some []
+  | VL l :: r => match all_vl r with Some t => Some (l :: t) | None => None end
+  | VZ _ :: _ => None
+  end.
+
+Lemma chunks_concat n : (1 <= n)%nat -> forall (zs w : list Z), (length w < n)%nat ->
+  exists B, chunks_from n w (vz zs) = (map VL B, None) /\ concat B = rev w ++ zs /\
+            Forall (fun b => (length b <= n)%nat /\ b <> []) B.
+Proof.
+  intros Hn. induction zs as [|z r IH]; intros w Hw; simpl.
+  - destruct w as [|x w'].
+    + exists []. simpl. auto.
+    + exists [rev (x :: w')]. simpl. rewrite !app_nil_r. split; [reflexivity|]. split; [reflexivity|].
+      constructor; [|constructor]. split.
+      * rewrite app_length, rev_length. simpl in *. lia.
+      * intros E. apply (f_equal (@length Z)) in E. rewrite app_length in E. simpl in E. lia.
+  - destruct (Nat.leb_spec n (S (length w))) as [Hfull|Hpart].
+    + destruct (IH [] ltac:(simpl; lia)) as [B [E1 [E2 E3]]]. fold (vz r). rewrite E1.
+      exists (rev (z :: w) :: B). simpl. split; [reflexivity|]. split.
+      * rewrite E2. simpl. rewrite <- app_assoc. reflexivity.
+      * constructor; [|exact E3]. split.
+        -- rewrite app_length, rev_length. simpl. lia.
+        -- intros E. apply (f_equal (@length Z)) in E. rewrite app_length in E. simpl in E. lia.
+    + destruct (IH (z :: w) ltac:(simpl; lia)) as [B [E1 [E2 E3]]]. fold (vz r). rewrite E1.
+      exists B. split; [reflexivity|]. split; [|exact E3]. rewrite E2. simpl. rewrite <- app_assoc. reflexivity.
+Qed.
+
+Lemma flatten_chunks (B : list (list Z)) : sem_op OFlatten (map VL B) = (vz (concat B), None).
+Proof.
+  unfold sem_op, vz. induction B as [|b r IH]; simpl; [reflexivity|]. simpl in IH. rewrite IH.
+  rewrite map_app. reflexivity.
+Qed.
+
+Lemma sem_batch_flatten n (zs : list Z) : (1 <= n)%nat ->
+  sem [OBatch n; OFlatten] (vz zs) = (vz zs, []).
+Proof.
+  intros Hn. destruct (chunks_concat n Hn zs [] ltac:(simpl; lia)) as [B [E1 [E2 _]]].
+  unfold sem. simpl. unfold sem_stage. simpl. rewrite E1. simpl. rewrite flatten_chunks, E2. reflexivity.
+Qed.
+
+(* ---------- the batch actor as it was before the repair does not meet its local specification ---------- *)
+Definition run_node (k : kind) (script : list inmsg) : node kstate :=
+  fold_left (fun n m => if n_alive n then fst (fst (node_handle (krecv k) n m)) else n) script (mk_node (kinit k)).
+
+Definition batch0_witness : list inmsg :=
+  [FromDown (URequest 1); FromUp (DElem (VZ 1)); FromUp (DElem (VZ 2)); FromUp DComplete].
+
+Lemma batch0_refuted :
+  let n := run_node (KBatch0 1 default_cfg) batch0_witness in
+  n_cin n = [DElem (VZ 1); DElem (VZ 2); DComplete] /\
+  n_cout n = [DElem (VL [1]); DComplete] /\
+  approx (n_cin n) ([VZ 1; VZ 2], []) /\
+  ~ approx (n_cout n) (ksem (KBatch0 1 default_cfg) ([VZ 1; VZ 2], [])).
+Proof.
+  vm_compute. split; [reflexivity|]. split; [reflexivity|]. split.
+  - split; [exists []; reflexivity|]. split; [auto|intros; discriminate].
+  - intros [_ [C _]]. destruct (C eq_refl) as [X _]. discriminate.
+Qed.
+
+(* the repaired actor on the same script keeps the second element and completes only after delivering it *)
+Lemma batch_repaired_witness :
+  let n := run_node (KBatch 1 default_cfg) (batch0_witness ++ [FromDown (URequest 1)]) in
+  n_cout n = [DElem (VL [1]); DElem (VL [2]); DComplete] /\ n_alive n = false.
+Proof. vm_compute. auto. Qed.
+
+(* ---------- examples: the hypotheses are satisfiable ---------- *)
+Example ex_pipeline : list op :=
+  [OMap 2 1; OFilter 3 0; OScan 0; OFlatMap 3; OBuffer 2; ODedup; OBatch 4; OFlatten; OTryMap 1 0 7 3 42 SFailFast].
+
+Example ex_kok_fused : Forall kok (plan true ex_pipeline).
+Proof. vm_compute. repeat constructor. Qed.
+Example ex_kok_unfused : Forall kok (plan false ex_pipeline).
+Proof. vm_compute. repeat constructor. Qed.
+
+(* a reachable state that is not the initial one: the sink's first request has reached the last stage *)
+Example ex_reach : exists s, reach default_cfg (vz [1; 2; 3]) (plan true ex_pipeline) s /\
+                             s <> sys_init default_cfg (vz [1; 2; 3]) (plan true ex_pipeline).
+Proof.
+  eexists. split.
+  - eapply reach_step; [apply reach_init|]. vm_compute. apply ss_chain. eapply cs_down; [reflexivity|]. vm_compute. reflexivity.
+  - vm_compute. discriminate.
 Qed.
